@@ -152,7 +152,9 @@ def run(prop, tier, replay):
     p, h, g = reps["pure"], reps["hist"], reps["gate"]
     nwords = 2 ** p["NBits"]
     exp_pure = {"univ": 1, "can_read": N_EMB_PURE * nwords, "can_write": N_EMB_PURE * nwords,
-                "apply": 21 * 16 * 2, "parse": p["nstrings"], "from_numbers": 20}
+                "apply": 21 * 16 * 2, "parse": p["nstrings"], "from_numbers": 20,
+                # layouts of one fragment: 1 + 4 + 16 + 64 = 85; events: the empty list, 85 single, 85 * 85 pairs
+                "infer": 1 + 85 + 85 * 85}
     got_pure = {k: p["counts"][k] for k in exp_pure}
     if got_pure != exp_pure or p["counts"]["variant"] < 6 or p["counts"]["apply_err"] == 0:
         exhaustive = False
